@@ -931,6 +931,9 @@ func (g *gen) behC13() M {
 				if g.chance(0.1) {
 					n = 4000 + g.rng.Intn(16000)
 				}
+				if g.chance(0.06) {
+					n = 65536 - g.rng.Intn(6) // a payload as large as the size limit allows, or a few bytes less
+				}
 				b := make([]byte, n)
 				g.rng.Read(b)
 				if g.chance(0.12) {
